@@ -7,6 +7,7 @@ import (
 	"go/constant"
 	"go/token"
 	"go/types"
+	"sort"
 	"strings"
 
 	"golang.org/x/tools/go/ssa"
@@ -15,7 +16,7 @@ import (
 func init() {
 	register("C15",
 		"week-index arithmetic, the contents of GetWeeks, and whether the month-separated week walk visits exactly one (month, week) position per step (after the repair of the shadowed variable the walk still mis-steps for some (first weekday, n); that residue is arithmetic and invisible to these rules).",
-		r15_1, r15_2, r15_3)
+		r15_1, r15_2, r15_3, r15_4, r15_5)
 }
 
 // steppingMethods: methods named Next* whose first non-receiver parameter is an int.
@@ -379,4 +380,117 @@ func intConstUses(fn *ssa.Function) []constUse {
 		}
 	}
 	return out
+}
+
+func r15_4(c *Ctx, r *Report) {
+	const rule = "R15.4"
+	r.rule(rule, "Day lists are built by stepping, not by enumerating day numbers. SolarMonth.GetDays pushes the first day and then firstDay.NextDay(i) for i = 1 .. days-1 with days = GetDaysOfMonth(own year, own month); SolarWeek.GetDays pushes GetFirstDay() and firstDay.NextDay(i) for i = 1..6. Day numbers are not contiguous in October 1582, so constructing days by number requests a day that does not exist.")
+	for _, name := range []string{"calendar.(*SolarMonth).GetDays", "calendar.(*SolarWeek).GetDays"} {
+		fn := c.Fn(r, rule, name)
+		if fn == nil {
+			continue
+		}
+		var kinds []string
+		for _, b := range fn.Blocks {
+			for _, ins := range b.Instrs {
+				call, ok := ins.(*ssa.Call)
+				if !ok || call.Common().StaticCallee() == nil || call.Common().StaticCallee().String() != "(*container/list.List).PushBack" {
+					continue
+				}
+				v := call.Common().Args[1]
+				if mi, ok := v.(*ssa.MakeInterface); ok {
+					v = mi.X
+				}
+				k := "other: " + v.String()
+				if vc, ok := v.(*ssa.Call); ok && vc.Common().StaticCallee() != nil {
+					switch fname(vc.Common().StaticCallee()) {
+					case "calendar.NewSolarFromYmd":
+						if d, ok := constInt(vc.Common().Args[2]); ok && d == 1 {
+							k = "first"
+						} else {
+							k = "day built by number"
+						}
+					case "calendar.(*SolarWeek).GetFirstDay":
+						k = "first"
+					case "calendar.(*Solar).NextDay":
+						base, okb := vc.Common().Args[0].(*ssa.Call)
+						_, isPhi := vc.Common().Args[1].(*ssa.Phi)
+						if okb && base.Common().StaticCallee() != nil && isPhi {
+							bn := fname(base.Common().StaticCallee())
+							if bn == "calendar.NewSolarFromYmd" || bn == "calendar.(*SolarWeek).GetFirstDay" {
+								k = "step"
+							}
+						}
+					}
+				}
+				kinds = append(kinds, k)
+			}
+		}
+		sort.Strings(kinds)
+		r.check(equalStrs(kinds, []string{"first", "step"}), rule, name+" lists the first day and steps from it", c.fnPos(fn), fmt.Sprintf("pushed elements: %v", kinds))
+	}
+	if fn := c.Fn(r, rule, "calendar.(*SolarMonth).GetDays"); fn != nil {
+		bound := false
+		for _, b := range fn.Blocks {
+			if iff, ok := b.Instrs[len(b.Instrs)-1].(*ssa.If); ok {
+				s := symExpr(c, iff.Cond, nil, map[ssa.Value]string{}, 0)
+				if strings.HasSuffix(s, "< SolarUtil.GetDaysOfMonth(solarMonth.year,solarMonth.month))") {
+					bound = true
+				}
+			}
+		}
+		r.check(bound, rule, "calendar.(*SolarMonth).GetDays steps while i < GetDaysOfMonth(own year, own month)", c.fnPos(fn), "21 steps for October 1582")
+	}
+}
+
+func r15_5(c *Ctx, r *Report) {
+	const rule = "R15.5"
+	r.rule(rule, "The month-separated week walk tracks the month of the week it reports. In SolarWeek.Next(n, true) the loop-carried 'current month' is updated only from the month of a SolarWeek value (the week about to be reported, after its relabelling), never from the day cursor; otherwise a week that straddles a month boundary makes the next step skip (next month, week 1).")
+	fn := c.Fn(r, rule, "calendar.(*SolarWeek).Next")
+	if fn == nil {
+		return
+	}
+	var monthPhi *ssa.Phi
+	loops, of := findLoops(fn)
+	_ = loops
+	for _, b := range fn.Blocks {
+		for _, ins := range b.Instrs {
+			if phi, ok := ins.(*ssa.Phi); ok && phi.Comment == "month" && len(of[b]) > 0 && of[b][len(of[b])-1].header == b {
+				monthPhi = phi
+			}
+		}
+	}
+	if monthPhi == nil {
+		r.bad(rule, "calendar.(*SolarWeek).Next tracks the current month across steps", c.fnPos(fn), "no loop-carried 'month' found (undecided = fail)")
+		return
+	}
+	var bad []string
+	seen := map[ssa.Value]bool{}
+	var walk func(v ssa.Value)
+	walk = func(v ssa.Value) {
+		if seen[v] {
+			return
+		}
+		seen[v] = true
+		if v == ssa.Value(monthPhi) {
+			return
+		}
+		if phi, ok := v.(*ssa.Phi); ok {
+			for _, e := range phi.Edges {
+				walk(e)
+			}
+			return
+		}
+		if _, f, ok := getterField(c, v); ok && f == "SolarWeek.month" {
+			return
+		}
+		bad = append(bad, symExpr(c, v, nil, map[ssa.Value]string{}, 0))
+	}
+	li := of[monthPhi.Block()][len(of[monthPhi.Block()])-1]
+	for i, e := range monthPhi.Edges {
+		if li.body[monthPhi.Block().Preds[i]] {
+			walk(e)
+		}
+	}
+	r.check(len(bad) == 0, rule, "calendar.(*SolarWeek).Next tracks the month of the reported week", c.fnPos(fn), fmt.Sprintf("loop-carried month is updated from: SolarWeek.month only; other sources: %v", bad))
 }
